@@ -193,6 +193,22 @@ func modelEntries(kv map[string]string, prefix []byte) []string {
 func (s *c11State) checkRead(m *dbModel, what string) bool {
 	ok := true
 	err := mwdb.View(s.db, func(tx mwdb.ReadTransaction) error {
+		ok = s.checkReadIn(tx, m, what)
+		return nil
+	})
+	if err != nil {
+		s.fail("read-error", "%s: View: %v", what, err)
+		return false
+	}
+	return ok
+}
+
+// checkReadIn compares everything readable through tx with model m.
+//
+//go:norace
+func (s *c11State) checkReadIn(tx mwdb.ReadTransaction, m *dbModel, what string) bool {
+	ok := true
+	err := func() error {
 		names, err := tx.BucketNames()
 		if err != nil {
 			s.fail("read-error", "%s: BucketNames: %v", what, err)
@@ -235,6 +251,31 @@ func (s *c11State) checkRead(m *dbModel, what string) bool {
 				s.fail("content", "%s: bucket %q holds %q, model %q", what, path, got, want)
 				ok = false
 				return nil
+			}
+			// point reads: every committed key reads back its value, keys this
+			// bucket once held and no longer holds read as absent
+			var ks []string
+			for k := range m.kv[path] {
+				ks = append(ks, k)
+			}
+			sort.Strings(ks)
+			for _, k := range ks {
+				v, gerr := b.Get([]byte(k))
+				if gerr != nil || string(v) != m.kv[path][k] || (v == nil) {
+					s.fail("content", "%s: Get(%q) in bucket %q returns %q (%v), model %q", what, k, path, v, gerr, m.kv[path][k])
+					ok = false
+					return nil
+				}
+			}
+			for _, k := range s.pool[path] {
+				if _, in := m.kv[path][k]; in {
+					continue
+				}
+				if v, gerr := b.Get([]byte(k)); gerr != nil || v != nil {
+					s.fail("content", "%s: Get(%q) in bucket %q returns %q (%v), the model has no such key", what, k, path, v, gerr)
+					ok = false
+					return nil
+				}
 			}
 			// full iteration: every entry once, ascending
 			it := b.NewIterator(nil)
@@ -293,9 +334,9 @@ func (s *c11State) checkRead(m *dbModel, what string) bool {
 			s.w.Stat("check.fetch_by_meta")
 		}
 		return nil
-	})
+	}()
 	if err != nil {
-		s.fail("read-error", "%s: View: %v", what, err)
+		s.fail("read-error", "%s: %v", what, err)
 		return false
 	}
 	return ok
@@ -344,6 +385,16 @@ func runC11(w *World, p map[string]int) {
 			continue
 		}
 		// ---- a write transaction ----
+		// sometimes a read transaction is opened first and kept open across
+		// the write transaction: whatever happens meanwhile, it keeps showing
+		// the state it was opened on
+		var heldRead mwdb.ReadTransaction
+		var heldModel *dbModel
+		if t.Bool(15) {
+			if rtx, e := s.db.BeginReadTx(); e == nil {
+				heldRead, heldModel = rtx, s.model.clone()
+			}
+		}
 		work := s.model.clone()
 		s.touched = map[string]bool{}
 		outcome := t.Weighted([]int{10, 3, 3, 2}) // commit, rollback, closure error, crash during commit
@@ -407,6 +458,15 @@ func runC11(w *World, p map[string]int) {
 				}
 			}
 		}()
+		if heldRead != nil {
+			if !crashed && len(w.Violations) == 0 {
+				s.checkReadIn(heldRead, heldModel, "read transaction opened before a write transaction and read after it ended")
+				w.Stat("check.read_tx_held_across_commit")
+			}
+			if !crashed {
+				heldRead.Rollback()
+			}
+		}
 		if len(w.Violations) > 0 {
 			return
 		}
